@@ -437,7 +437,8 @@ class AstInfo:
         """Check if self should be covered.
 
         This means that self must be in the cover lines,
-        as well as the potential functions and classes that contains it.
+        as well as the potential functions and classes that contains it,
+        and that self is not defined in a branch that is not in the cover lines.
 
         Returns:
             True if self should be covered, False otherwise.
@@ -451,6 +452,9 @@ class AstInfo:
             if scope_line_range(definition_node)[0]
             <= start_line
             <= scope_line_range(definition_node)[1]
+        ) and (
+            isinstance(self.ast, ast.Module)
+            or AstInfo(ast=self.module.module_ast, module=self.module).should_cover_line(start_line)
         )
 
     def should_cover_line(self, lineno: int) -> bool:
